@@ -206,7 +206,7 @@ def execute(sc):
     for cs in sc['callers']:
         ctl.spawn(cs['thr'], caller_thread, cs)
     ctl.start()
-    if not ctl.finished.wait(sc.get('wall', 6.0)):
+    if not rt.wait_finished(ctl, sc.get('wall', 6.0)):
         ctl.status = 'stuck'
     ctl.log('End', status=ctl.status if ctl.status in ('ok', 'hang') else 'stuck')
     return rt.result_payload(ctl)
